@@ -31,6 +31,23 @@ CHECKS = [
              'role has one independent peer.',
      'technique': 'differential PBT against an independent protocol '
                   'implementation and the OpenSSH client'},
+    {'id': 'C03', 'memwire': True, 'level': 'fault_enumeration',
+     'text': 'Every registered non-GSS kex method (31) is first run unedited '
+             '(must complete with equal session ids) and then with one '
+             'generated field-level or byte-level edit of a cleartext '
+             'handshake message (version line, KEXINIT cookie / each of the '
+             '10 name-lists / flags, each field of each kex-method message) in '
+             'either direction: no edit may yield an authenticated '
+             'connection or let credentials reach the server. Negotiation: '
+             'generated preference lists, result compared with the 3-line '
+             'RFC rule through get_extra_info and through an independent '
+             'peer that only decodes if both sides chose alike.',
+     'note': 'Cleartext framing parsed by the harness; refpeer trusted as in '
+             'C02; session ids read from a private attribute in the control '
+             'family; GSS kex excluded (no gssapi).',
+     'technique': 'fault injection on generated handshake edits + '
+                  'differential negotiation against a reference rule and an '
+                  'independent peer'},
     {'id': 'C07', 'memwire': True,
      'text': 'Generated op-list programs (writes around window/packet '
              'boundaries, EOF, pause/resume, 1..3 channels, text encodings, '
